@@ -1,5 +1,5 @@
 CONSTANTS MaxLimit = 3  Variant = "code"
-  Outcomes = {"ok", "http500", "http502", "http503", "http504", "http507", "refused", "attemptTimeout", "eof", "tokenRetryable", "usage", "tokenFatal", "malformed", "forbidden", "http400"}
+  Outcomes = {"ok", "http500", "http502", "http503", "http504", "http507", "refused", "attemptTimeout", "eof", "closed", "tokenRetryable", "usage", "tokenFatal", "malformed", "forbidden", "http400"}
 SPECIFICATION Spec
 INVARIANTS TypeOK AtMostLimit PermanentAtOnce SuccessHonest FaithfulFailure CancelResult Export
 CHECK_DEADLOCK FALSE
